@@ -14,6 +14,7 @@ run() { # id engines expected
 }
 for i in 1 2 3 4 5 6 7 9 10 11 13 14 16 17 18 19 20 23 24; do run agent-$i N 1; done
 run own-deadlock-lock-order N 1
+run own-not-send-sync T,N 1
 for c in own-control-lazylock own-control-global-mutex control-c1 control-c2 control-c3 control-c4 control-c5 control-c6; do run $c T,N 0; done
 for i in 3 8 12 15 26; do run agent-$i M 1; done
 run own-racy-regex-init M 1
